@@ -20,7 +20,7 @@ from .c20_others import regions_equal
 I = z3.Int
 BOUNDS = {"quick": dict(K=3), "thorough": dict(K=4)}
 CONTAINERS = ["region", "region with start", "region.split", "source", "reader", "raw-eager", "raw-lazy", "wav-eager", "wav-lazy", "IN.WAV", "IN.Raw lazy", "stdin"]
-ALIASES = ["short-only", "sr", "sw", "ch", "aw", "val", "mr", "fmt", "eth", "uc"]
+ALIASES = ["short-only", "sr", "sw", "ch", "sr written first", "sw written first", "ch written first", "aw", "val", "mr", "fmt", "eth", "uc"]
 
 
 def mkval(tag=""):
